@@ -3099,8 +3099,22 @@ static void jdf_generate_startup_tasks(const jdf_t *jdf, const jdf_function_entr
         if(vl->expr->op == JDF_RANGE) {
             coutput("%s  for(this_task->locals.%s.value = %s = %s;\n",
                     indent(nesting), vl->name, vl->name, dump_expr((void**)vl->expr->jdf_ta1, &info1));
-            coutput("%s      this_task->locals.%s.value <= %s;\n",
-                    indent(nesting), vl->name, dump_expr((void**)vl->expr->jdf_ta2, &info1));
+            /* Same continuation test as the counting loop of the internal_init: the range can
+             * be increasing or decreasing, depending on the sign of the increment. */
+            if( JDF_OP_IS_CST(vl->expr->jdf_ta3->op) ) {
+                coutput("%s      this_task->locals.%s.value %s %s;\n",
+                        indent(nesting), vl->name, (vl->expr->jdf_ta3->jdf_cst >= 0) ? "<=" : ">=",
+                        dump_expr((void**)vl->expr->jdf_ta2, &info1));
+            } else {
+                coutput("%s      (((%s) >= 0) && ",
+                        indent(nesting), dump_expr((void**)vl->expr->jdf_ta3, &info1));
+                coutput("(this_task->locals.%s.value <= %s)) ||\n",
+                        vl->name, dump_expr((void**)vl->expr->jdf_ta2, &info1));
+                coutput("%s      (((%s) <  0) && ",
+                        indent(nesting), dump_expr((void**)vl->expr->jdf_ta3, &info1));
+                coutput("(this_task->locals.%s.value >= %s));\n",
+                        vl->name, dump_expr((void**)vl->expr->jdf_ta2, &info1));
+            }
             coutput("%s      this_task->locals.%s.value += %s, %s = this_task->locals.%s.value) {\n",
                     indent(nesting), vl->name, dump_expr((void**)vl->expr->jdf_ta3, &info1), vl->name, vl->name);
             nesting++;
